@@ -8,7 +8,8 @@
 (* muxer / decoders) and checks the postcondition in the model.                                *)
 EXTENDS Integers, Sequences, FiniteSets, TLC, Json
 
-TubeRefs == {"live-rel", "live-unrel", "closed-rel", "never-rel", "never-unrel", "witness"}
+TubeRefs == {"live-rel", "live-unrel", "closed-rel", "never-rel", "never-unrel", "witness",
+             "finwait1-rel", "lastack-rel"}     \* the victim has a FIN outstanding (it closed first / after the peer)
 LenClasses == {"zero", "exact", "declared-less", "declared-more", "declared-max"}
 AckClasses == {"below", "current", "sent", "beyond", "max"}
 NoClasses  == {"below", "next", "inwindow", "beyond"}
@@ -16,7 +17,8 @@ FlagSets   == 0..63                              \* REQ RESP REL ACK FIN RTR
 
 FrameEdges == {<<t, l, a, n>> \in TubeRefs \X LenClasses \X AckClasses \X NoClasses : TRUE}
 
-Decoders == {"userauth", "exec", "winsize", "pfaddr", "intent", "confdenial", "targetinfo", "proxyresponse"}
+Decoders == {"userauth", "exec", "winsize", "pfaddr", "intent", "confdenial", "targetinfo", "proxyresponse",
+             "execstatus"}      \* the CLIENT side: the execution status message from a hostile server
 ByteClasses == {"empty", "truncated-header", "truncated-body", "length-gt-remaining", "length-max", "unknown-enum", "valid", "random"}
 DecoderEdges == Decoders \X ByteClasses
 
